@@ -13,7 +13,10 @@ from harness import c01 as T
 RULE = ('real TransmissionModel (2-30 layers, 1-5 wavenumbers, thin/mid/thick absorber) + one of: cloud deck with top '
         'inside / exactly on a layer pressure / +-1ulp of it / above / below the grid; grey haze and Lee haze with '
         'bounds set / unset / one unset / inverted / sub-Pascal / exactly on levels / wholly above / wholly below / '
-        'zero width. distinct non-trivial = distinct (kind, bound class, layers, method) where the contribution '
+        'zero width; the same classes DECLARED IN AN INPUT FILE ([Model] section text -> ParameterParser -> factory.create_model / '
+        'generate_contributions / create_klass) with non-integer values, bounds left out (= unset), other keywords left out '
+        '(= constructor default, cloud top included), in one session after a section of the same class that declares every '
+        'keyword. distinct non-trivial = distinct (kind, bound class, layers, method, route) where the contribution '
         'affects some but not all layers')
 ASSUMPTIONS = ['np.searchsorted(side="right") on a sorted array = number of elements <= v (Interp.searchRight)',
                'x**y (numpy power) modelled as exp(y*log x) for x > 0; pi is passed in as np.pi',
@@ -21,6 +24,10 @@ ASSUMPTIONS = ['np.searchsorted(side="right") on a sorted array = number of elem
                'the cloud deck is the first contribution after build() sorts by .order (3 < 5)',
                'pressure levels strictly decreasing with altitude, layer pressures inside their levels (C11)',
                'rounding not modelled: sigma compared to 1e-9 relative',
+               'input-file route: the atmosphere components are built in Python and handed to ParameterParser.generate_model; the '
+               'section text holds repr(float) of every declared value (ConfigObj + ParameterParser.transform turn it back into '
+               'the same float); the constructor defaults are read from the class signature (inspect), not through the factory; '
+               'Haze.declaredArgs (op c19.declare) is compared with the values the built contribution holds',
                'source tie of the cloudy run (Props/C19Src.lean src_cloudy_run_*, Props/C19SrcProps.lean): the regenerated '
                'path_integral / contribute / compute_absorption / prepare_each are run at the extended carrier XR '
                '(Proofs/C19Ext.lean): a real, +inf, -inf or nan; IEEE rules for the special values (x+inf=inf, inf-inf=nan, '
@@ -154,6 +161,135 @@ def bound_class(rng, lev, P, kind):
     return c, float(np.nextafter(x, rng.choice([0.0, np.inf]))), float(np.nextafter(pick(), rng.choice([0.0, np.inf])) * 0.5)
 
 
+# ----------------------------------------------------------------------------------------- input-file route
+# A cloud / haze DECLARED IN AN INPUT FILE: the [Model] section is written as text, read by ParameterParser (ConfigObj and
+# its text -> number conversion) and turned into the model by ParameterParser.generate_model -> factory.create_model ->
+# generate_contributions -> create_klass.  `spec['omit']` lists the keywords of the cloud / haze that the section leaves
+# out (a bound left unset; a magnitude left at the constructor's default): `spec['extra']` holds the values the
+# contribution must then act with.  All cases of a run share one Python session, so sections of the same class with
+# other / fewer keywords have been turned into objects before.
+SECTION = {'absorption': ('Absorption', 'AbsorptionContribution'), 'rayleigh': ('Rayleigh', 'RayleighContribution'),
+           'clouds': ('SimpleClouds', 'SimpleCloudsContribution'), 'flatmie': ('FlatMie', 'FlatMieContribution'),
+           'leemie': ('LeeMie', 'LeeMieContribution')}
+BOUND_KEYS = ('flat_bottomP', 'flat_topP', 'lee_mie_bottomP', 'lee_mie_topP')
+
+
+def sig_defaults(ctype):
+    """{keyword: default} of the contribution's constructor, read from its signature (not through the factory)"""
+    import inspect
+    import taurex.contributions as tc
+    klass = getattr(tc, SECTION[ctype][1])
+    return {k: v.default for k, v in inspect.signature(klass.__init__).parameters.items()
+            if k != 'self' and v.default is not inspect.Parameter.empty}
+
+
+def model_section(s):
+    """text of the [Model] section of the input file that declares the contribution list of `s`"""
+    omit = set(s.get('omit') or [])
+    lines = ['[Model]', 'model_type = transmission', 'new_path_method = %s' % bool(s.get('new_path_method', False))]
+    for c in s['contributions']:
+        lines.append('    [[%s]]' % SECTION[c['type']][0])
+        for k, v in c.items():
+            if k != 'type' and k not in omit:
+                lines.append('    %s = %s' % (k, repr(v) if isinstance(v, int) else repr(float(v))))
+    return '\n'.join(lines) + '\n'
+
+
+def build_via_file(s):
+    import os
+    import shutil
+    import tempfile
+    from taurex.data import Planet
+    from taurex.data.stellar import BlackbodyStar
+    from taurex.data.profiles.pressure import SimplePressureProfile
+    from taurex.parameter import ParameterParser
+    FM.spec_install(s)
+    planet = Planet(planet_mass=float(s.get('planet_mass', 1.0)), planet_radius=float(s.get('planet_radius', 1.0)))
+    star = BlackbodyStar(temperature=float(s.get('star_temperature', 5700.0)), radius=float(s.get('star_radius', 1.0)))
+    pres = SimplePressureProfile(nlayers=int(s.get('nlayers', 10)), atm_min_pressure=float(s.get('pmin', 1e-2)),
+                                 atm_max_pressure=float(s.get('pmax', 1e6)))
+    temp = FM.make_temperature(s.get('temperature', dict(type='isothermal', T=1500.0)))
+    chem = FM.make_chemistry(s)
+    tmp = tempfile.mkdtemp(prefix='verif_c19_')
+    try:
+        fn = os.path.join(tmp, 'model.par')
+        with open(fn, 'w') as fh:
+            fh.write(model_section(s))
+        pp = ParameterParser()
+        pp.read(fn)
+        m = pp.generate_model(chemistry=chem, pressure=pres, temperature=temp, planet=planet, star=star)
+    finally:
+        shutil.rmtree(tmp, ignore_errors=True)
+    m.build()
+    return m
+
+
+def run_real(s):
+    """(model, wn, depth, trans, profiles, contributions) of the spec, built directly or through an input file"""
+    if s.get('route') == 'parfile':
+        if s.get('omit') and s.get('extra2') is not None:
+            # the session a case with left-out keywords is judged in (part of the case, so that it replays on its own): an
+            # input file declaring the same class with EVERY keyword (other values) has been turned into a model before
+            build_via_file(with_contribs(dict(s, omit=[]), s['extra2']))
+        m = build_via_file(s)
+        return (m,) + T.observe(m)
+    return T.run_real(s)
+
+
+def to_parfile(rng, spec):
+    """the same case declared in an input file; bounds that are unset are (mostly) left out of the section, a fifth of the
+    other keywords is left out too and then stands at the constructor's default"""
+    spec['route'] = 'parfile'
+    ex = spec['extra']
+    dflt = sig_defaults(ex['type'])
+    omit = []
+    for k in list(ex):
+        if k == 'type':
+            continue
+        if k in BOUND_KEYS:
+            if ex[k] < 0 and rng.random() < 0.7:
+                omit.append(k)
+        elif rng.random() < (0.3 if k == 'clouds_pressure' else 0.2):
+            ex[k] = float(dflt[k])
+            omit.append(k)
+            if k == 'clouds_pressure':
+                spec['cls'] = 'default-top'
+    spec['omit'] = omit
+    return spec
+
+
+def check_declared(ctx, m, spec):
+    """the keyword values the contribution object holds after the input-file route: against Haze.declaredArgs (model) and
+    against the declaration itself (a declared value unchanged; a bound left out = unset; another keyword left out = the
+    constructor's default)"""
+    ex = spec['extra']
+    obj = find(m, SECTION[ex['type']][1])
+    dflt = sig_defaults(ex['type'])
+    names = list(dflt)
+    omit = list(spec.get('omit') or [])
+    decl = [k for k in ex if k != 'type' and k not in omit]
+    fp = obj.fitting_parameters()
+    got = [float(fp[k][2]()) for k in names]
+    sm = dict(kind=spec['kind'], cls=spec['cls'], route='parfile', extra=ex, omit=omit)
+    d = ctx.model().call('c19.declare', C.L(names, C.S), C.L([float(dflt[k]) for k in names]), C.L(decl, C.S),
+                         C.L([float(ex[k]) for k in decl]))
+    ctx.check_eq('keyword values of the %s declared in an input file vs Haze.declaredArgs' % SECTION[ex['type']][0],
+                 got, d.opt(d.list), sm)
+    ctx.bucket('route:parfile:' + ex['type'])
+    for k in omit:
+        ctx.bucket('route:parfile:left-out:' + k)
+    for k, v in zip(names, got):
+        if k in decl and v != float(ex[k]):
+            ctx.violation('declared-value-changed:' + k, 'the %s reaches the contribution with another value than the '
+                          'input file declares' % k, spec, dict(declared=float(ex[k]), held=v))
+        elif k in omit and k in BOUND_KEYS and not v < 0:
+            ctx.violation('left-out-bound-not-unset:' + k, 'a haze bound the input file leaves out is not unset', spec,
+                          dict(held=v))
+        elif k in omit and k not in BOUND_KEYS and v != float(dflt[k]):
+            ctx.violation('left-out-keyword-not-default:' + k, 'a keyword the input file leaves out does not stand at the '
+                          'constructor default', spec, dict(default=float(dflt[k]), held=v))
+
+
 # ----------------------------------------------------------------------------------------- cloud
 def gen_cloud(rng, k):
     spec = base_spec(rng, k)
@@ -185,7 +321,7 @@ def gen_cloud(rng, k):
 def eval_cloud(ctx, spec):
     p0 = spec['extra']['clouds_pressure']
     try:
-        m, wn, depth, trans, p, contribs = T.run_real(with_contribs(spec, spec['extra']))
+        m, wn, depth, trans, p, contribs = run_real(with_contribs(spec, spec['extra']))
         cloud = find(m, 'SimpleCloudsContribution')
         csig = np.array(cloud.sigma_xsec, float)
         order = [type(c).__name__ for c in m.contribution_list]
@@ -193,6 +329,8 @@ def eval_cloud(ctx, spec):
     except Exception as e:
         ctx.violation('cloud-raises:' + type(e).__name__, 'model with a cloud deck raised %r' % (e,), spec)
         return
+    if spec.get('route') == 'parfile':
+        check_declared(ctx, m, spec)
     n, nwn = p['nlayers'], len(wn)
     P = p['P']
     rp, rs, z, dz = p['rp'], p['rs'], p['z'], p['dz']
@@ -233,9 +371,11 @@ def eval_cloud(ctx, spec):
                       'depth below the documented integral with the cloudy layers opaque', spec,
                       dict(depth=depth, floor=floor, without=depth0))
     part = bool(np.any(cloudy) and np.any(clear))
-    ctx.case(key=('cloud', spec['cls'], n, new) if part else None,
-             sample=dict(kind='cloud', cls=spec['cls'], p0=p0, nlayers=n, cloudy=int(cloudy.sum()), depth=depth[:2]),
-             bucket='cloud:' + spec['cls'])
+    route = spec.get('route') or 'python'
+    ctx.case(key=('cloud', spec['cls'], n, new, route) if part else None,
+             sample=dict(kind='cloud', cls=spec['cls'], p0=p0, nlayers=n, cloudy=int(cloudy.sum()), depth=depth[:2],
+                         route=route, omit=spec.get('omit')),
+             bucket=('cloud:' if route == 'python' else 'cloud:input-file:') + spec['cls'])
     ctx.bucket('cloud-layers:' + ('none' if not cloudy.any() else 'all' if cloudy.all() else 'some'))
     reuse_check(ctx, spec, m)
 
@@ -301,7 +441,7 @@ def eval_haze(ctx, spec):
     kind = spec['kind']
     ex = spec['extra']
     try:
-        m, wn, depth, trans, p, contribs = T.run_real(with_contribs(spec, ex))
+        m, wn, depth, trans, p, contribs = run_real(with_contribs(spec, ex))
         hz = find(m, 'FlatMieContribution' if kind == 'flat' else 'LeeMieContribution')
         sig = np.array(hz.sigma_xsec, float)
         m0, wn0, depth0, trans0, p_0, contribs0 = T.run_real(with_contribs(spec, None))
@@ -309,6 +449,8 @@ def eval_haze(ctx, spec):
         ctx.violation(kind + '-raises:' + spec['cls'] + ':' + type(e).__name__,
                       'model with a haze raised %r' % (e,), spec)
         return
+    if spec.get('route') == 'parfile':
+        check_declared(ctx, m, spec)
     n, nwn = p['nlayers'], len(wn)
     P, lev = p['P'], p['Plev']
     sm = dict(kind=kind, cls=spec['cls'], extra=ex, nlayers=n, pmin=spec['pmin'], pmax=spec['pmax'])
@@ -408,9 +550,11 @@ def eval_haze(ctx, spec):
         ctx.violation(kind + '-more-transparent:' + spec['cls'], 'adding a haze increased a transmittance', spec,
                       dict(with_haze=trans[:3], without=trans0[:3]))
     part = bool(np.any(affected) and not np.all(affected))
-    ctx.case(key=(kind, spec['cls'], n, bool(spec['new_path_method'])) if part else None,
-             sample=dict(sm, sigma=sig[:4, 0], model=(msig[:4] if kind == 'flat' else msig[:4, 0])),
-             bucket=kind + ':' + spec['cls'])
+    route = spec.get('route') or 'python'
+    ctx.case(key=(kind, spec['cls'], n, bool(spec['new_path_method']), route) if part else None,
+             sample=dict(sm, sigma=sig[:4, 0], model=(msig[:4] if kind == 'flat' else msig[:4, 0]), route=route,
+                         omit=spec.get('omit')),
+             bucket=kind + (':' if route == 'python' else ':input-file:') + spec['cls'])
     ctx.bucket(kind + '-layers:' + ('none' if not affected.any() else 'all' if affected.all() else 'some'))
     reuse_check(ctx, spec, m)
 
@@ -455,6 +599,15 @@ def run(ctx):
         else:
             spec = gen_haze(ctx.rng, k // 3, 'flat' if which == 1 else 'lee')
         eval_case(ctx, spec)
+    # the same classes of clouds and hazes DECLARED IN AN INPUT FILE (ParameterParser -> factory), in one session: sections of
+    # the same class with explicit, partly left-out and wholly left-out keywords follow one another
+    for k in range(ctx.n(240, 4500)):
+        which = k % 3
+        if which == 0:
+            spec = gen_cloud(ctx.rng, k // 3)
+        else:
+            spec = gen_haze(ctx.rng, k // 3, 'flat' if which == 1 else 'lee')
+        eval_case(ctx, to_parfile(ctx.rng, spec))
     malformed(ctx)
     FM.reset_caches()
 
